@@ -429,6 +429,9 @@ func (self *Compiler) compileExpr(node ast.AnalyzedExpression) {
 		}
 
 		default_branch := self.mangleLabel("match_default")
+		// No arm matched: the control value is still on the stack and must be dropped,
+		// just like the individual arms do after `Eq_PopOnce`.
+		self.insert(newPrimitiveInstruction(Opcode_Drop), node.Range)
 		if node.DefaultArmAction != nil {
 			self.insert(newOneStringInstruction(Opcode_Jump, default_branch), node.Range)
 		} else {
